@@ -17,12 +17,16 @@ def pykey(v):
         s = z3.simplify(v)
         if z3.is_bv_value(s):
             return s.as_long()
-    if isinstance(v, (int, tuple)):
+    if isinstance(v, (int, tuple, str)):
         return v
+    if hasattr(v, "key") and callable(v.key):          # e.g. a string taken from a string table: (table, index)
+        return v.key()
     raise Unsupported(f"container key is not concrete: {v!r}")
 
 
 def bvkey(k, w=64):
+    if isinstance(k, str) or (isinstance(k, tuple) and k and k[0] == "name"):
+        return k
     if isinstance(k, tuple):
         return Agg("tuple", "()", [bvkey(x, w) for x in k])
     return z3.BitVecVal(k, w)
@@ -376,6 +380,8 @@ def m_take(it, c, a):
 
 def m_chain(it, c, a):
     r, o = val(a[0]), val(a[1])
+    conv = lambda x: PIter(x.items[x.pos:]) if (hasattr(x, "items") and hasattr(x, "pos") and not hasattr(x, "pull")) else x
+    r, o = conv(r), conv(o)
     if r.ops or (isinstance(o, PIter) and o.ops): raise Unsupported("chain after adaptors")
     if not isinstance(o, PIter): o = m_into_iter_generic(it, "<&x as IntoIterator>::into_iter", [o])
     return PIter(r.items[r.pos:] + o.items[o.pos:])
@@ -423,13 +429,15 @@ def range_iter(v):
     lo, hi = (z3.simplify(x) for x in v.fields[:2])
     if z3.is_bv_value(lo) and z3.is_bv_value(hi):
         return PIter([z3.BitVecVal(i, lo.size()) for i in range(lo.as_long(), hi.as_long())])
-    raise Unsupported("range with symbolic bounds")
+    return v          # symbolic bounds: iterated lazily by m_next, which forks on lo < hi
 
 
 def m_into_iter_generic(it, c, a):
     v = val(a[0])
     ref = c.startswith("<&")
     if isinstance(v, PIter): return v
+    if hasattr(v, "items") and hasattr(v, "pos"): return v                           # containers.IterVal
+    if hasattr(v, "items") and not isinstance(v, PVec): return PIter(list(v.items))   # containers.VecVal
     if isinstance(v, Agg) and v.name == "Range": return range_iter(v)
     if isinstance(v, PSet): return (m_set_iter if ref else m_set_into_iter)(it, c, a)
     if isinstance(v, PMap): return (m_map_iter if ref else m_map_into_iter)(it, c, a)
@@ -439,6 +447,11 @@ def m_into_iter_generic(it, c, a):
 
 def m_next(it, c, a):
     r = val(a[0])
+    if hasattr(r, "items") and hasattr(r, "pos") and not hasattr(r, "pull"):      # containers.IterVal
+        if r.pos < len(r.items):
+            x = r.items[r.pos]; r.pos += 1
+            return some(x)
+        return none()
     if isinstance(r, Agg) and r.name == "Range":
         lo, hi = r.fields
         if it.branch(z3.ULT(lo, hi)):
